@@ -120,15 +120,75 @@ func specRel(opts []layers.TCPOption, a int, o int, isn uint32) uint32 {
 //@ ensures[C01.fresh]       ret0 != nil ==> fresh(ret0)
 //@ modifies ghost clock
 
+//@ func (*sackDriver).Close
+//@ safety C10
+//@ requires[C10.drv.close.open] s != nil && s.source != nil && s.sink != nil && ref(s.source) != ref(s.sink) && selb(isOpen, ref(s.source)) && selb(isOpen, ref(s.sink))
+//@ ensures[C10.drv.close]   !selb(isOpen, ref(s.source)) && !selb(isOpen, ref(s.sink))
+//@ ensures[C10.drv.frame]   forallint(h, h != ref(s.source) && h != ref(s.sink) ==> selb(isOpen, h) == old(selb(isOpen, h)) && sel(closeN, h) == old(sel(closeN, h)))
+//@ modifies ghost isOpen, ghost closeN
+
+// The SYN-ACK decides whether SACK tracerouting is possible: a handshake reply without SACK-permitted is the only
+// NotSupportedError this function produces (C20), everything else it reports is a plain error.
+//@ func (*sackDriver).handleHandshake
+//@ safety C10 C20
+//@ requires[pre.nonnil]     s != nil && s.parser != nil && packets.SpecParsed(s.parser)
+//@ ensures[C20.hs.nosack]   ret0 != nil && chain(ret0, *NotSupportedError) ==> specIsTCP(s.parser) && s.parser.TCP.SYN && s.parser.TCP.ACK && !exists(a, 0, len(s.parser.TCP.Options), s.parser.TCP.Options[a].OptionType == layers.TCPOptionKindSACKPermitted)
+//@ ensures[C20.hs.state]    ret0 != nil ==> s.state == old(s.state)
+//@ ensures[C20.hs.ok]       s.state != old(s.state) ==> ret0 == nil && s.state != nil
+//@ modifies s.state
+//@ loop 1 invariant[found]  foundSackPermitted == exists(a, 0, range_i, s.parser.TCP.Options[a].OptionType == layers.TCPOptionKindSACKPermitted)
+
+//@ func (*sackDriver).ReadHandshake
+//@ safety C10 C20
+//@ requires[pre.nonnil]     s != nil && s.source != nil && s.parser != nil && s.parser.parserv4 != nil && s.parser.parserv6 != nil
+//@ requires[C10.hs.open]    selb(isOpen, ref(s.source))
+//@ ensures[C20.hs.done]     ret0 == nil ==> s.state != nil
+//@ ensures[C20.hs.class]    ret0 != nil && chain(ret0, *NotSupportedError) ==> ncalls("(*sackDriver).handleHandshake") > old(ncalls("(*sackDriver).handleHandshake")) && chain(lastres("(*sackDriver).handleHandshake", 0), *NotSupportedError)
+//@ modifies *, ghost clock, ghost ioFail
+//@ loop 1 invariant[calls] ncalls("(*sackDriver).handleHandshake") >= old(ncalls("(*sackDriver).handleHandshake"))
+
+// dialSackTCP: the only place a TCP connection to the target is opened. It returns an open connection or an error.
+//@ func dialSackTCP
+//@ safety C10
+//@ requires[pre.ctx]         ctx != nil
+//@ ensures[C10.dial.atom]    (ret1 != nil) == (ret0 == nil)
+//@ ensures[C10.dial.ok]      ret1 == nil ==> selb(isOpen, ref(ret0)) && !old(selb(isOpen, ref(ret0)))
+//@ ensures[C10.dial.noleak]  forallint(h, (ret1 != nil || h != ref(ret0)) && !old(selb(isOpen, h)) ==> !selb(isOpen, h))
+//@ ensures[C10.dial.others]  forallint(h, old(selb(isOpen, h)) ==> selb(isOpen, h) && sel(closeN, h) == old(sel(closeN, h)))
+//@ ensures[C10.dial.wrap]    ret1 != nil ==> !chain(ret1, *NotSupportedError)
+//@ modifies ghost isOpen, ghost closeN, ghost clock, ghost tcpDialed
+
+// Entry point (C10): discovery socket, capture source, raw sink and the TCP connection are closed again on every path.
+// C20: the error class is decided by capability only — a failed dial and a SYN-ACK without SACK-permitted give
+// NotSupportedError; filter failures never do; errors of the handshake reader and of the engine keep their class.
+//@ func runSackTraceroute
+//@ safety C10 C20
+//@ requires[pre.ctx]          ctx != nil && sendN >= 0
+//@ ensures[C10.sack.atom]     ret1 != nil ==> ret0 == nil
+//@ ensures[C10.sack.result]   ret1 == nil ==> ret0 != nil
+//@ ensures[C10.sack.closed]   forallint(h, !old(selb(isOpen, h)) ==> !selb(isOpen, h))
+//@ ensures[C10.sack.others]   forallint(h, old(selb(isOpen, h)) ==> selb(isOpen, h) && sel(closeN, h) == old(sel(closeN, h)))
+//@ ensures[C20.sack.dial]     ncalls(dialSackTCP) == old(ncalls(dialSackTCP)) + 1 && lastres(dialSackTCP, 1) != nil ==> ret1 != nil && chain(ret1, *NotSupportedError)
+//@ ensures[C20.sack.filter]   ncalls(Source.SetPacketFilter) > old(ncalls(Source.SetPacketFilter)) && lastres(Source.SetPacketFilter, 0) != nil ==> ret1 != nil && !chain(ret1, *NotSupportedError)
+//@ ensures[C20.sack.hs]       ncalls("(*sackDriver).ReadHandshake") == old(ncalls("(*sackDriver).ReadHandshake")) + 1 && lastres("(*sackDriver).ReadHandshake", 0) != nil ==> ret1 != nil && chain(ret1, *NotSupportedError) == chain(lastres("(*sackDriver).ReadHandshake", 0), *NotSupportedError)
+//@ ensures[C20.sack.engine]   ncalls(TracerouteParallel) == old(ncalls(TracerouteParallel)) + 1 && lastres(TracerouteParallel, 1) != nil ==> ret1 != nil && chain(ret1, *NotSupportedError) == chain(lastres(TracerouteParallel, 1), *NotSupportedError)
+//@ before TracerouteParallel assert[C10.sack.open] selb(isOpen, ref(driver.source)) && selb(isOpen, ref(driver.sink))
+//@ modifies *, ghost isOpen, ghost closeN, ghost clock, ghost sendN, ghost sendLog, ghost sendClock, ghost tcpDialed, ghost ioFail
+
 //@ func RunSackTraceroute
-//@ trusted pending: entry point not yet verified against this contract (C10 work item)
-//@ ensures[C10.entry.atom]  ret1 != nil ==> ret0 == nil
-//@ ensures[C03.entry.hops]  ret1 == nil ==> ret0 != nil && forall(i, 0, len(ret0.Hops), ret0.Hops[i] != nil)
-//@ modifies *
+//@ safety C10 C20
+//@ requires[pre.ctx]          ctx != nil && sendN >= 0
+//@ ensures[C10.entry.atom]    ret1 != nil ==> ret0 == nil
+//@ ensures[C03.entry.hops]    ret1 == nil ==> ret0 != nil && forall(i, 0, len(ret0.Hops), ret0.Hops[i] != nil)
+//@ ensures[C10.entry.closed]  forallint(h, !old(selb(isOpen, h)) ==> !selb(isOpen, h))
+//@ ensures[C10.entry.others]  forallint(h, old(selb(isOpen, h)) ==> selb(isOpen, h) && sel(closeN, h) == old(sel(closeN, h)))
+//@ ensures[C20.entry.class]   ncalls(runSackTraceroute) == old(ncalls(runSackTraceroute)) + 1 && lastres(runSackTraceroute, 1) != nil ==> ret1 != nil && chain(ret1, *NotSupportedError) == chain(lastres(runSackTraceroute, 1), *NotSupportedError)
+//@ modifies *, ghost isOpen, ghost closeN, ghost clock, ghost sendN, ghost sendLog, ghost sendClock, ghost tcpDialed, ghost ioFail
 
 //@ func (*sackDriver).SendProbe
 //@ safety C06 C05
 //@ requires[pre.nonnil]   s != nil && s.sink != nil
+//@ requires[C10.send.open]  selb(isOpen, ref(s.sink))
 //@ requires[pre.len]      s.state != nil ==> len(s.sendTimes) == int(s.params.ParallelParams.MaxTTL)+1
 //@ requires[pre.past]     forall(k, 0, len(s.sendTimes), s.sendTimes[k] <= now())
 //@ ensures[C06.once]      ret0 == nil ==> specInv(s) && specInRange(s, uint32(ttl)) && old(s.sendTimes[ttl]) == 0 && s.sendTimes[ttl] != 0
@@ -145,12 +205,13 @@ func specRel(opts []layers.TCPOption, a int, o int, isn uint32) uint32 {
 
 //@ func newSackDriver
 //@ safety C19
-//@ ensures[C19.sack.table]  ret1 == nil ==> ret0 != nil && fresh(ret0) && len(ret0.sendTimes) == int(params.ParallelParams.MaxTTL)+1 && ret0.state == nil && ret0.params == params && ret0.localAddr == localAddr
+//@ ensures[C19.sack.table]  ret1 == nil ==> ret0 != nil && fresh(ret0) && len(ret0.sendTimes) == int(params.ParallelParams.MaxTTL)+1 && ret0.state == nil && ret0.params == params && ret0.localAddr == localAddr && ret0.sink == sink && ret0.source == source && ret0.parser != nil && ret0.parser.parserv4 != nil && ret0.parser.parserv6 != nil
 //@ ensures[C19.sack.zero]   ret1 == nil ==> forall(k, 0, len(ret0.sendTimes), ret0.sendTimes[k] == 0)
 
 //@ func (*sackDriver).ReceiveProbe
 //@ safety C09
 //@ requires[pre.nonnil]     s != nil && s.source != nil && s.parser != nil && s.parser.parserv4 != nil && s.parser.parserv6 != nil
+//@ requires[C10.recv.open]  selb(isOpen, ref(s.source))
 //@ requires[pre.len]        s.state != nil ==> len(s.sendTimes) == int(s.params.ParallelParams.MaxTTL)+1
 //@ requires[pre.past]       forall(k, 0, len(s.sendTimes), s.sendTimes[k] <= now())
 //@ ensures[C09.recv.xor]    (ret0 == nil) != (ret1 == nil)
